@@ -52,6 +52,10 @@ GR = {
     "sph:nohole": {"kind": "sph", "shape": (3,), "hole": False},
     "cyl:hole": {"kind": "cyl", "shape": (2, 2), "hole": True},
     "cyl:periodic_z": {"kind": "cyl", "shape": (2, 2), "hole": False, "periodic_z": True},
+    # a periodic axis with a single cell: both support points of that axis wrap onto the same cell
+    "cart1:1cell:periodic": {"kind": "cart", "shape": (1,), "periodic": (True,)},
+    "cart2:1cell-periodic-y": {"kind": "cart", "shape": (2, 1), "periodic": (False, True)},
+    "cyl:1cell-periodic_z": {"kind": "cyl", "shape": (2, 1), "hole": True, "periodic_z": True},
 }
 
 
@@ -153,6 +157,10 @@ def scenario_interpolate(env, cfg):
     f = cls(grid, data, dtype=dt)
     p = G._point(env, "p", grid, geom, spread=cfg.get("spread", 1 if grid.num_axes == 1 else 0.5))
     _inside_guard(env, grid, geom, p)
+    for a, side in enumerate(cfg.get("part", ())):
+        # the case covers one half-space per axis (the parts overlap at the mid-plane); splits the work over processes
+        mid = geom["x0"][a] + grid.shape[a] * geom["h"][a] / 2
+        env.assume(p[a] <= mid if side == 0 else p[a] >= mid)
     fill = cfg.get("fill")
     ref = _reference(env, grid, geom, data, p, False)
     try:
@@ -269,9 +277,12 @@ def scenario_bc(env, cfg):
     data = env.array("u", grid.shape, -4, 4)
     f = pde.ScalarField(grid, data, dtype=dt)
     v = 0.75
-    bc = {"*": {"value": v}}
+    if any(grid.periodic):
+        bc = {grid.axes[b]: ("periodic" if grid.periodic[b] else {"value": v}) for b in range(grid.num_axes)}
+    else:
+        bc = {"*": {"value": v}}
     a = cfg.get("axis", 0)
-    for upper in (False, True):
+    for upper in cfg.get("sides", (False, True)):
         wall = geom["x0"][a] + (grid.shape[a] * geom["h"][a] if upper else 0)
         inner = grid.axes_coords[a][-1 if upper else 0]
         s = env.real(f"s{int(upper)}", 0, 1)  # 0 = wall, 1 = first centre
@@ -338,7 +349,11 @@ def cases(tier, seed):
             if two_axes:
                 periodic = any(GR[g].get("periodic", ())) or GR[g].get("periodic_z")
                 cfg["spread"] = (0 if periodic else 0.25) if q else 1
-            out.append({"name": f"interpolate:{g}:fill={fill}", "scenario": "scenario_interpolate", "cfg": cfg})
+            if two_axes:
+                for part in ((0, 0), (0, 1), (1, 0), (1, 1)):
+                    out.append({"name": f"interpolate:{g}:fill={fill}:part{part[0]}{part[1]}", "scenario": "scenario_interpolate", "cfg": dict(cfg, part=list(part))})
+            else:
+                out.append({"name": f"interpolate:{g}:fill={fill}", "scenario": "scenario_interpolate", "cfg": cfg})
         out.append({"name": f"centres-affine:{g}", "scenario": "scenario_centres_affine", "cfg": {"grid": g}})
         out.append({"name": f"insert:{g}", "scenario": "scenario_insert", "cfg": {"grid": g}})
     if not q:
@@ -353,6 +368,9 @@ def cases(tier, seed):
         out.append({"name": f"periodic:{g}", "scenario": "scenario_periodic", "cfg": {"grid": g}})
     for g, ax in (("cart1", 0), ("cart2", 0), ("cart2", 1), ("cyl:hole", 1), ("polar:hole", 0)):
         out.append({"name": f"bc-wall:{g}:axis{ax}", "scenario": "scenario_bc", "cfg": {"grid": g, "axis": ax}})
+    # mixed periodicity: the wall of the non-periodic axis still carries the imposed condition
+    out.append({"name": "bc-wall:cart2:periodic-y:axis0", "scenario": "scenario_bc", "cfg": {"grid": "cart2:periodic-y", "axis": 0}})
+    out.append({"name": "bc-wall:cyl:periodic_z:axis0:outer", "scenario": "scenario_bc", "cfg": {"grid": "cyl:periodic_z", "axis": 0, "sides": [True]}})
     return out
 
 
